@@ -82,6 +82,8 @@ def check_resync(prefix, out, type_, v):
             return 'prefix-output', '%s: messages before M are %r expected %r' % (how, gb[:-1], out)
         if not (got[-1] == M):
             return 'message-lost', '%s: last message %r expected %r' % (how, got[-1], M)
+        core.scribble(got)         # the consumer stamps / transposes what it was given
+    core.scribble(allm)
     return None
 
 
@@ -135,6 +137,9 @@ def check_concat(encs):
     exp = [mido.Message.from_bytes(e) for e in encs]
     if got != exp:
         return 'concat', 'parse_all(%r) gave %r expected %r' % (data, got, exp)
+    if len({id(m) for m in got}) != len(got):
+        return 'concat-shared-objects', 'parse_all(%r) returned one object for several messages' % (data,)
+    core.scribble(got)
     return None
 
 
@@ -160,6 +165,9 @@ def check_rtsysex(inner):
             return 'rtsysex', '%s(%r) gave %r expected %r' % (how, stream, gb, exp)
         if got[-1].type != 'sysex' or tuple(got[-1].data) != tuple(payload):
             return 'rtsysex-payload', repr(got[-1])
+        if any(m.time != 0 for m in got):
+            return 'rtsysex-stamped', 'messages arrive already stamped: %s' % core.srepr(got)
+        core.scribble(got)
     return None
 
 
